@@ -1415,6 +1415,11 @@ class FileSet:
         elif isinstance(bundle_size, str):
             files = list(file_iterator)
 
+            # No files, no bundles (pandas cannot group an empty series
+            # without a datetime index):
+            if not files:
+                return
+
             # We want to split the files into hourly (or daily, etc.) bundles.
             # pandas provides a practical grouping function.
             time_series = pd.Series(
